@@ -4,6 +4,7 @@ import verif as V
 
 PROP = "C13"
 PROPS = "props/C13.v"
+PROPS_B = "props/C13b.v"   # integration with C12: tojson|fromjson, tostring|tonumber (coq/integ/TojsonFromjson.v)
 DEPS = ["c13/Utf8.v", "c13/Codec.v", "c13/Jv.v", "c13/Time.v", "c13/Run.v"]
 
 
@@ -59,11 +60,16 @@ def run(tier, seed, only_cands=None):
         "arithmetic of Go 1.24 time.go as modelled in c13/Time.v (checked by the gmtime/mktime lines)",
         "to_entries/from_entries/with_entries/tostream/fromstream/paths: the Gallina functions are hand transcriptions of "
         "the builtin.jq text (checked against the implementation on the value universe and random nested values)",
-        "tojson|fromjson, tostring|tonumber, todate|fromdate and [paths]==[path(..)][1:] have no theorem; they are "
-        "evaluated on the implementation only (laws stream)",
+        "tojson|fromjson and tostring|tonumber (props/C13b.v, derived from the C12 development): tojson/tostring are the "
+        "C12 model of encoder.go; fromjson is the reference RFC 8259 reader of c12/JsonRef.v (the real one is encoding/json, "
+        "outside /repo, compared with the reference reader by the C12 check); strconv.AppendFloat/ParseFloat are variables "
+        "under the hypotheses fmt_shape and fmt_round (digits parse back to the float), checked on sampled floats by C12",
+        "todate|fromdate and [paths]==[path(..)][1:] have no theorem; they are evaluated on the implementation only "
+        "(laws stream), as are tojson|fromjson and tostring|tonumber on the real encoding/json and strconv",
         "equality of results is jq equality written in the harness (exact on integers, double otherwise), not gojq.Compare",
     ]
     proved = c.prove(PROPS)
+    proved = c.prove(PROPS_B) and proved
     exe_h, hlog = V.build_harness("c13")
     mism, st, lst = [], {}, {}
     law_viol = []
